@@ -75,7 +75,19 @@ func (rp *RuleParser) ParseVariables(vars string) error {
 				return fmt.Errorf("attempting to select a value inside a non-selectable collection: %s", string(curVar))
 			}
 			// fmt.Printf("(PREVIOUS %s) %s:%s (%t %t)\n", vars, curvar, curkey, iscount, isnegation)
-			if isquoted {
+			if isquoted && curr == 1 {
+				// a quoted plain key (ARGS:'key'): the closing quote is not part of the key.
+				// It is the last character of the list (and was just appended to the key),
+				// or the character in front of the '|'.
+				switch {
+				case c != '|' && len(curKey) > 0 && curKey[len(curKey)-1] == '\'':
+					curKey = curKey[:len(curKey)-1]
+				case c == '|' && vars[i-1] == '\'':
+				default:
+					return fmt.Errorf("unclosed quote: %q", string(curKey))
+				}
+				isquoted = false
+			} else if isquoted {
 				// if it is quoted we remove the last quote
 				if len(vars) <= i+1 || vars[i+1] != '\'' {
 					if vars[i] != '\'' {
